@@ -272,11 +272,21 @@ func VerifC01Plain() {
 		}
 	}
 	nm := vLen("nmid", 0, vParam("M", 2))
-	if nm == vParam("M", 2) && vParam("M14", 0) == 1 {
-		nm = 14
+	if vParam("M14", 0) == 1 {
+		nm = 13 + vLen("nmid14", 0, 1) // 13 or 14 middle parameters (RFC 2812 allows 14 + trailing)
 	}
 	for i := 0; i < nm; i++ {
 		id := string([]byte{byte('a' + i)})
+		if nm > 4 {
+			// many parameters: one symbolic byte each, single spaces except before the first two
+			m.middles = append(m.middles, vGenMiddle("mid"+id, 1))
+			g := 1
+			if i < 2 {
+				g = vLen("gap"+id, 1, 2)
+			}
+			m.gaps = append(m.gaps, g)
+			continue
+		}
 		m.middles = append(m.middles, vGenMiddle("mid"+id, vParam("ML", 2)))
 		m.gaps = append(m.gaps, vLen("gap"+id, 1, 2))
 	}
